@@ -99,7 +99,10 @@ def basis_spline(  # pylint: disable=dangerous-default-value  # always replaced 
     if df is not None and knots is not None:
         raise ValueError("You cannot specify both `df` and `knots`.")
 
-    x = numpy.asarray(x)
+    # The basis is evaluated in double precision whatever the storage of `x`
+    # (unsigned columns would wrap in `x - knot`, float16/float32 columns would
+    # lose precision).
+    x = numpy.asarray(x, dtype=float)
 
     if "lower_bound" in _state:
         lower_bound = float(_state["lower_bound"])
